@@ -282,7 +282,7 @@ func (env *Env) eval(e SExpr) (Val, error) {
 					if err != nil {
 						return Val{}, err
 					}
-					ps = append(ps, tv.T.S)
+					ps = append(ps, patternTerm(tv.T.S, sub.bound))
 				}
 				fb = fmt.Sprintf("(! %s :pattern (%s))", fb, strings.Join(ps, " "))
 			}
@@ -1564,4 +1564,67 @@ func (env *Env) targetsOfLoc(loc *Loc) []modTarget {
 		return ts
 	}
 	return nil
+}
+
+// patternTerm turns the term a spec trigger evaluates to into a legal SMT pattern: patterns may not contain boolean
+// connectives or ite, which the translation of a Go expression introduces (a map index is "present ? value : zero").  The
+// largest connective-free sub-term that mentions a bound variable is used instead.
+func patternTerm(t string, bound []string) string {
+	bad := func(x string) bool {
+		for _, op := range []string{"(ite ", "(and ", "(or ", "(not ", "(=> ", "(= ", "(<= ", "(< ", "(>= ", "(> ", "(distinct "} {
+			if strings.Contains(x, op) {
+				return true
+			}
+		}
+		return false
+	}
+	mentions := func(x string) bool {
+		for _, b := range bound {
+			if containsSymbol(x, b) {
+				return true
+			}
+		}
+		return false
+	}
+	if !bad(t) {
+		return t
+	}
+	best := ""
+	var walk func(x string)
+	walk = func(x string) {
+		if !strings.HasPrefix(x, "(") {
+			return
+		}
+		if !bad(x) && mentions(x) {
+			if len(x) > len(best) {
+				best = x
+			}
+			return
+		}
+		for _, p := range splitSexp(x[1 : len(x)-1])[1:] {
+			walk(p)
+		}
+	}
+	walk(t)
+	if best == "" {
+		return t
+	}
+	return best
+}
+
+func containsSymbol(x, sym string) bool {
+	for i := 0; ; {
+		j := strings.Index(x[i:], sym)
+		if j < 0 {
+			return false
+		}
+		j += i
+		e := j + len(sym)
+		okL := j == 0 || strings.ContainsRune(" ()", rune(x[j-1]))
+		okR := e == len(x) || strings.ContainsRune(" ()", rune(x[e]))
+		if okL && okR {
+			return true
+		}
+		i = e
+	}
 }
